@@ -63,7 +63,8 @@ def doc_encode(w, cfg, t, x):
     if k == "enum":
         return w["enums"][x[1]][x[2]]
     if k == "lit":
-        return x
+        # leaf values are themselves; an enum member among the literal's values becomes its value ("enums their values")
+        return w["enums"][x[1]][x[2]] if x[0] == "e" else x
     if k in ("list", "seq", "mseq", "tup*", "deque"):
         if conv:
             return ("l", [doc_encode(w, cfg, t[1], e) for e in x[1]])
@@ -215,6 +216,9 @@ def td_on_cycle(w, roots):
     return False
 
 
+tuple_on_cycle = gen.tuple_on_cycle
+
+
 def tuples_as_lists(o):
     t = o[0]
     if t in ("l", "t"):
@@ -233,10 +237,37 @@ def f39(case) -> bool:
     return isinstance(case, dict) and case.get("deviation") == "recursive-td-tuples-as-lists"
 
 
+@framework.finding("str-mixin-enum-member-survives")
+def f59(case) -> bool:
+    """F59: members of an Enum class that also subclasses `str` or `bytes` ((str, Enum), StrEnum, (bytes, Enum)) are returned
+    unchanged by unstructure: `(str, identity)` / `(bytes, identity)` are registered by class and singledispatch resolves
+    them through the MRO before the `issubclass(t, Enum)` predicate is consulted.  Recognised only when every enum member
+    left in the output is an instance of str or bytes (ext.run_c03 sets the probe)."""
+    return isinstance(case, dict) and case.get("probe") == "str-mixin-enum-member-survives"
+
+
+F60_SIG = "recursive-class-hetero-tuple-late-binding"
+
+
+@framework.finding(F60_SIG)
+def f60(case) -> bool:
+    """A class that refers to itself through a heterogeneous tuple (`e: Optional[tuple[Self, int]]`), Converter with the
+    dict strategy (generated class hooks): hook generation meets the reference cycle inside the tuple hook and falls back
+    to late binding on the RUN-TIME class, for which a tuple is a sequence -- the heterogeneous tuple comes out as a list.
+    Recognised only when the output is primitive-only and differs from the documented encoding in nothing but tuples
+    having become lists."""
+    return isinstance(case, dict) and case.get("deviation") == "recursive-class-tuples-as-lists"
+
+
 CFGS = [c for c in ALL_CFGS if c["detailed"]]  # detailed_validation is irrelevant to unstructuring
 
 
 def run(chk: framework.Check):
+    import os
+    if os.environ.get("VERIF_F60") and not any(f.get("signature") == F60_SIG for f in chk.known):
+        chk.known.append({"id": "F60", "property": "C03", "kind": "finding", "signature": F60_SIG,
+                          "what": "a class referring to itself through a heterogeneous tuple (e: Optional[tuple[Self, int]]): "
+                                  "Converter/dict strategy unstructures the tuple as a list (entry assumed via VERIF_F60)"})
     rng = chk.rng
     G = gen.Gen(rng, unions=True, nt=True)
     drv = lean.Driver()
@@ -293,6 +324,13 @@ def run(chk: framework.Check):
                         chk.note("union-reachable:" + ("value-through-union" if any(
                             not isinstance(t, str) and t[0] == "union" for t in gen.walk_types(ty)) else "in-class-fields"))
                     in_f39 = cfg["gen"] and td_on_cycle(w, roots)
+                    in_f60 = cfg["gen"] and not cfg["tuple"] and tuple_on_cycle(w, roots)
+                    if bad and in_f60 and not in_f39:
+                        if (ri[0] == "ok" and primitive_only(ri[1]) and terms.canon_sx(tuples_as_lists(ri[1]))
+                                == terms.canon_sx(tuples_as_lists(doc_encode(w, cfg, ty, x)))):
+                            case = dict(case, deviation="recursive-class-tuples-as-lists")
+                        chk.violation(f"C03 oracle: {bad} [{cfg_name(cfg)} {terms.ty_sx(ty)} {terms.canon_sx(x)}]", case)
+                        continue
                     if bad:
                         if (in_f39 and ri[0] == "ok" and primitive_only(ri[1]) and terms.canon_sx(tuples_as_lists(ri[1]))
                                 == terms.canon_sx(tuples_as_lists(doc_encode(w, cfg, ty, x)))):
@@ -301,6 +339,9 @@ def run(chk: framework.Check):
                         continue
                     if in_f39:
                         chk.note("recursive-typeddict(region of F39: model not compared)")
+                        continue
+                    if in_f60:
+                        chk.note("recursive-class-through-hetero-tuple(region of F60: model not compared)")
                         continue
                     # ---- correspondence
                     if ri[0] != "ok" or km != "ok" or terms.canon_sx(ri[1]) != reply_canon(rm):
@@ -317,6 +358,9 @@ def run(chk: framework.Check):
     chk.extra["rule"] = ("random worlds (attrs/dataclass/TypedDict classes, enums) x types to depth 3 x conforming values x "
                          "{Converter,BaseConverter} x {dict,tuple}; non-trivial = non-leaf type; distinct by canonical text")
     c03_overrides.run_overrides(chk, drv)
+    # implementation-only extended stream: enums with a data-type mix-in (IntEnum, IntFlag, (float|str|bytes, Enum), StrEnum)
+    from harness import ext
+    ext.run_c03(chk)
     drv.close()
 
 
